@@ -523,53 +523,57 @@ func CanonicalIsomorphAllocated(n, m int, neighbours [][]int, op *CanonicalOrder
 	//Handle the special case where m = 0.
 	//TODO: Check if this is necessary.
 	if m == 0 {
-		//Return the identity permutation.
+		//Return the vertices in the order of the partition (this is the identity permutation if there are no vertex classes).
 		perm := storage.currentBestPerm[:n]
-		for i := 0; i < n; i++ {
-			perm[i] = i
-		}
-		//Every vertex is in the same orbit.
+		copy(perm, op.order)
+		//Every vertex is in the same orbit as the other vertices in its cell and the automorphism group is generated by a cycle and a transposition on each cell.
 		ds := storage.firstLeafOrbits[:n]
-		ds[0] = -2
-		for i := 1; i < n; i++ {
-			ds[i] = 0
-		}
+		cellStart := 0
+		for _, cellEnd := range op.binDividers {
+			cell := op.order[cellStart:cellEnd]
+			cellStart = cellEnd
+			if len(cell) == 1 {
+				ds[cell[0]] = -1
+				continue
+			}
+			ds[cell[0]] = -2
+			for _, v := range cell[1:] {
+				ds[v] = cell[0]
+			}
 
-		if n == 1 {
-			return perm, ds, storage.generators[:0]
-		}
+			generators = generators[:len(generators)+1]
+			tmp := generators[len(generators)-1]
+			if cap(tmp) < n {
+				tmp = make([]int, n)
+			} else {
+				tmp = tmp[:n]
+			}
+			for i := range tmp {
+				tmp[i] = i
+			}
+			for i, v := range cell {
+				tmp[v] = cell[(i+1)%len(cell)]
+			}
+			generators[len(generators)-1] = tmp
 
-		generators := storage.generators[:1]
-		tmp := generators[0]
-		if cap(tmp) < n {
-			tmp = make([]int, n)
-		} else {
-			tmp = tmp[:n]
-		}
-		for i := range tmp {
-			tmp[i] = i + 1
-		}
-		tmp[n-1] = 0
-		generators[0] = tmp
+			if len(cell) == 2 {
+				continue
+			}
 
-		if n == 2 {
-			return perm, ds, generators
+			generators = generators[:len(generators)+1]
+			tmp = generators[len(generators)-1]
+			if cap(tmp) < n {
+				tmp = make([]int, n)
+			} else {
+				tmp = tmp[:n]
+			}
+			for i := range tmp {
+				tmp[i] = i
+			}
+			tmp[cell[0]] = cell[1]
+			tmp[cell[1]] = cell[0]
+			generators[len(generators)-1] = tmp
 		}
-
-		generators = generators[:2]
-
-		tmp = generators[1]
-		if cap(tmp) < n {
-			tmp = make([]int, n)
-		} else {
-			tmp = tmp[:n]
-		}
-		for i := range tmp {
-			tmp[i] = i
-		}
-		tmp[0] = 1
-		tmp[1] = 0
-		generators[1] = tmp
 		return perm, ds, generators
 	}
 
